@@ -598,4 +598,106 @@ theorem loop_progress (cfg : Cfg) (hmf : 1 ≤ cfg.maxFrame) (hb : 1 ≤ cfg.buf
       obtain ⟨fs', o⟩ := res2
       exact this
 
+/-! ### the looks of the schedule are used in order -/
+
+theorem dataAvails_append (a b : List Sent) : dataAvails (a ++ b) = dataAvails a ++ dataAvails b := by
+  simp [dataAvails]
+
+/-- the frames `sendChunk` cuts use the looks of the schedule in order, each at most once; what it
+returns is the unused rest -/
+theorem sendChunk_avails (mf : Nat) (last : Bool) :
+    ∀ (av : List Nat) (rem : Bytes),
+      (∀ av', (sendChunk mf last rem av).2 = some av' →
+        ∃ used, av = used ++ av' ∧ (dataAvails (sendChunk mf last rem av).1).Sublist used) ∧
+      ((sendChunk mf last rem av).2 = none → (dataAvails (sendChunk mf last rem av).1).Sublist av) := by
+  intro av
+  induction av with
+  | nil =>
+    intro rem
+    cases rem with
+    | nil => simp [sendChunk, dataAvails]
+    | cons b bs => simp [sendChunk, dataAvails]
+  | cons a av ih =>
+    intro rem
+    cases rem with
+    | nil =>
+      simp only [sendChunk]
+      refine ⟨?_, by simp⟩
+      intro av' h
+      simp only [Option.some.injEq] at h
+      exact ⟨[], by simp [h], by simp [dataAvails]⟩
+    | cons b bs =>
+      simp only [sendChunk]
+      split
+      next hn =>
+        obtain ⟨h1, h2⟩ := ih (b :: bs)
+        refine ⟨?_, ?_⟩
+        · intro av' h
+          obtain ⟨used, hu, hs⟩ := h1 av' h
+          exact ⟨a :: used, by simp [hu], hs.cons a⟩
+        · intro h
+          exact (h2 h).cons a
+      next hn =>
+        obtain ⟨h1, h2⟩ := ih ((b :: bs).drop (take a (b :: bs).length mf))
+        have hpos : 0 < take a (b :: bs).length mf := Nat.pos_of_ne_zero hn
+        have hle := take_eq a (b :: bs).length mf
+        generalize sendChunk mf last ((b :: bs).drop (take a (b :: bs).length mf)) av = res at *
+        obtain ⟨fs, r⟩ := res
+        simp only at h1 h2 ⊢
+        generalize hn' : take a (b :: bs).length mf = n at *
+        have hne : ((b :: bs).take n).isEmpty = false := by
+          cases n with
+          | zero => omega
+          | succ k => rfl
+        have hd : dataAvails (⟨a, .data ((b :: bs).take n)
+            (last && ((b :: bs).drop n).isEmpty)⟩ :: fs) = a :: dataAvails fs := by
+          unfold dataAvails
+          rw [List.filter_cons_of_pos (by simpa [Frame.payload] using hne)]
+          rfl
+        rw [hd]
+        refine ⟨?_, ?_⟩
+        · intro av' h
+          obtain ⟨used, hu, hs⟩ := h1 av' h
+          exact ⟨a :: used, by simp [hu], hs.cons_cons a⟩
+        · intro h
+          exact (h2 h).cons_cons a
+
+theorem closing_avails (cfg : Cfg) : dataAvails [closing cfg] = [] := by
+  unfold closing dataAvails
+  split <;> simp [Frame.payload]
+
+theorem loop_avails (cfg : Cfg) :
+    ∀ (fuel : Nat) (remain : Int) (r : Reader) (av : List Nat),
+      (dataAvails (loop cfg fuel remain r av).1).Sublist av := by
+  intro fuel
+  induction fuel with
+  | zero => intro remain r av; simp [loop, dataAvails]
+  | succ fuel ih =>
+    intro remain r av
+    simp only [loop]
+    cases hstep : readStep cfg remain r with
+    | stop o => simp [dataAvails]
+    | send chunk sawEOF remain' r' =>
+      simp only
+      obtain ⟨h1, h2⟩ := sendChunk_avails cfg.maxFrame (sawEOF && !cfg.hasTrailers) av chunk
+      generalize sendChunk cfg.maxFrame (sawEOF && !cfg.hasTrailers) chunk av = res at *
+      obtain ⟨fs, ro⟩ := res
+      cases ro with
+      | none => exact h2 rfl
+      | some av' =>
+        obtain ⟨used, hu, hs⟩ := h1 av' rfl
+        simp only
+        have hsub : (dataAvails fs).Sublist av := by
+          rw [hu]; exact hs.trans (List.sublist_append_left used av')
+        split
+        · split
+          · exact hsub
+          · rw [dataAvails_append, closing_avails, List.append_nil]; exact hsub
+        · have := ih remain' r' av'
+          generalize loop cfg fuel remain' r' av' = res2 at *
+          obtain ⟨fs', o⟩ := res2
+          simp only at this ⊢
+          rw [dataAvails_append, hu]
+          exact List.Sublist.append hs this
+
 end Req.Lemmas.C01Body
